@@ -196,6 +196,8 @@ def add_stats(ck, stats, prefix=""):
             per_op[op] += v
         elif k.startswith(("refused:", "infl:")):
             continue
+        elif k in ("omp_max_threads", "eigen_threads", "omp_max_threads_seen"):
+            ck.cov[prefix + k] = max(ck.cov.get(prefix + k, 0), v)
         else:
             ck.cov[prefix + k] = ck.cov.get(prefix + k, 0) + v if isinstance(v, int) else v
     return per_op
